@@ -1,0 +1,9 @@
+//go:build !verif
+
+package util
+
+import gotime "time"
+
+// No-ops unless built with the `verif` tag.
+func verifInterval(d gotime.Duration) gotime.Duration { return d }
+func verifRepeatDone(int64) bool                      { return false }
